@@ -162,6 +162,10 @@ def l3(facts, tier):
         if s["crate"] not in ("savefile", "savefile_abi"):
             continue
         t = s["ty"]
+        if "thread::local::LocalKey<" in t or "thread_local" in t or "__RUST_STD_INTERNAL" in s["id"]:
+            yield ob(["C16"], "L3", s["id"], "pass", f"{s['file']}:{s['line']}", f"static {s['id']}: thread-local (not shared between threads)",
+                     nontrivial=False)
+            continue
         ok = (not s["mut"]) and ("UnsafeCell" not in t and "Cell<" not in t.replace("OnceCell", "") or "Mutex<" in t)
         kind = "Mutex" if "Mutex<" in t else ("atomic" if "atomic::" in t else "immutable")
         yield ob(["C16"], "L3", s["id"], "pass" if ok else "violation", f"{s['file']}:{s['line']}",
